@@ -508,24 +508,21 @@ Lemma less_ts_incomp_trans a b c :
   less_ts a c = false /\ less_ts c a = false.
 Proof. unfold less_ts. lia. Qed.
 
+Ltac less_index_cases :=
+  unfold less_index;
+  repeat match goal with
+         | |- context [?x =? ?y] => let E := fresh "E" in destruct (x =? y) eqn:E
+         end; cbn [negb]; try lia.
+
 Lemma less_index_irrefl a : less_index a a = false.
-Proof. unfold less_index. rewrite Z.eqb_refl. cbn. lia. Qed.
+Proof. unfold less_index. rewrite !Z.eqb_refl. cbn. lia. Qed.
 Lemma less_index_trans a b c :
   less_index a b = true -> less_index b c = true -> less_index a c = true.
-Proof.
-  unfold less_index.
-  destruct (u_index a =? u_index b) eqn:E1; destruct (u_index b =? u_index c) eqn:E2;
-    destruct (u_index a =? u_index c) eqn:E3; cbn; lia.
-Qed.
+Proof. less_index_cases. Qed.
 Lemma less_index_incomp_trans a b c :
   less_index a b = false -> less_index b a = false -> less_index b c = false -> less_index c b = false ->
   less_index a c = false /\ less_index c a = false.
-Proof.
-  unfold less_index. rewrite (Z.eqb_sym (u_index b) (u_index a)), (Z.eqb_sym (u_index c) (u_index b)),
-    (Z.eqb_sym (u_index c) (u_index a)).
-  destruct (u_index a =? u_index b) eqn:E1; destruct (u_index b =? u_index c) eqn:E2;
-    destruct (u_index a =? u_index c) eqn:E3; cbn; lia.
-Qed.
+Proof. less_index_cases. Qed.
 
 Lemma sorted_ts_per_index_sorted l : sorted_for less_ts l -> per_index_sorted l = true.
 Proof.
@@ -538,8 +535,7 @@ Lemma sorted_index_per_index_sorted l : sorted_for less_index l -> per_index_sor
 Proof.
   unfold sorted_for. induction 1 as [|a l Hs IH Hall]; cbn; [reflexivity|].
   rewrite IH, andb_true_r. rewrite forallb_forall. intros v Hv.
-  rewrite Forall_forall in Hall. specialize (Hall v Hv). unfold less_index in Hall.
-  destruct (u_index v =? u_index a) eqn:E; cbn in *; lia.
+  rewrite Forall_forall in Hall. specialize (Hall v Hv). revert Hall. less_index_cases.
 Qed.
 
 (* a Less-sorted list is ordered by the intended key *)
@@ -552,11 +548,11 @@ Qed.
 
 Lemma sorted_index_lex l :
   sorted_for less_index l ->
-  StronglySorted (fun a b => u_index a < u_index b \/ (u_index a = u_index b /\ u_ts a <= u_ts b)) l.
+  StronglySorted (fun a b => u_index a < u_index b \/ (u_index a = u_index b /\
+      (u_ts a < u_ts b \/ (u_ts a = u_ts b /\ u_ver a <= u_ver b)))) l.
 Proof.
   unfold sorted_for. induction 1 as [|a l Hs IH Hall]; constructor; [exact IH|].
-  eapply Forall_impl; [|exact Hall]. intros b Hb. unfold less_index in Hb.
-  destruct (u_index b =? u_index a) eqn:E; cbn in Hb; lia.
+  eapply Forall_impl; [|exact Hall]. intros b. less_index_cases.
 Qed.
 
 (* ---------- the consumer: mputil.Group ---------- *)
@@ -702,8 +698,7 @@ Qed.
 
 Lemma less_index_lex a b : less_index b a = false -> lex_le (key_index a) (key_index b).
 Proof.
-  unfold less_index, lex_le, key_index. cbn [fst snd].
-  destruct (u_index b =? u_index a) eqn:E; cbn; lia.
+  unfold lex_le, key_index. cbn [fst snd]. less_index_cases.
 Qed.
 
 Lemma sorted_index_keys_unique l1 l2 :
